@@ -155,12 +155,12 @@ class TextRenderer(BaseRenderer):
             mid_index = len(bot_frame) // 2
             top_frame = (
                 (top_frame[:mid_index] + "┴" + top_frame[mid_index + 1 :])
-                if sorted_controls[-1] > sorted_targets[0]
+                if sorted_controls[-1] > sorted_targets[-1]
                 else top_frame
             )
             bot_frame = (
                 (bot_frame[:mid_index] + "┬" + bot_frame[mid_index + 1 :])
-                if sorted_controls[0] < sorted_targets[-1]
+                if sorted_controls[0] < sorted_targets[0]
                 else bot_frame
             )
 
@@ -290,6 +290,14 @@ class TextRenderer(BaseRenderer):
                 self._render_strs["top_frame"][wire] += top_frame
                 self._render_strs["mid_frame"][wire] += mid_connect
                 self._render_strs["bot_frame"][wire] += mid_frame
+            elif gate.controls and wire in gate.controls:
+                # a control inside the box span is marked inside the box
+                mid_index = len(mid_frame) // 2
+                self._render_strs["top_frame"][wire] += mid_frame
+                self._render_strs["mid_frame"][wire] += (
+                    mid_frame[:mid_index] + "█" + mid_frame[mid_index + 1 :]
+                )
+                self._render_strs["bot_frame"][wire] += mid_frame
             else:
                 self._render_strs["top_frame"][wire] += mid_frame
                 self._render_strs["mid_frame"][wire] += mid_frame
@@ -327,8 +335,10 @@ class TextRenderer(BaseRenderer):
         mid_bar_conn = "─" * (width // 2) + "│" + "─" * (width // 2 - 1)
         node_conn = "─" * (width // 2) + "█" + "─" * (width // 2 - 1)
 
+        box_span = range(min(gate.targets), max(gate.targets) + 1)
+
         for wire in wire_list_control:
-            if wire not in gate.targets:
+            if wire not in box_span:
                 if wire in gate.controls:
                     # check if the control wire is the first or last control wire.
                     # used in cases of multiple control wires
@@ -436,8 +446,8 @@ class TextRenderer(BaseRenderer):
                     sorted_controls = sorted(gate.controls)
 
                     # check if there is control wire above the gate top
-                    is_top = sorted_controls[-1] > sorted_targets[0]
-                    is_bot = sorted_controls[0] < sorted_targets[-1]
+                    is_top = sorted_controls[-1] > sorted_targets[-1]
+                    is_bot = sorted_controls[0] < sorted_targets[0]
 
                     if is_top:
                         self._update_qbridge(
